@@ -20,6 +20,8 @@ def list_mutants():
         patch = os.path.join(d, "patch.diff")
         if os.path.exists(meta) and os.path.exists(patch):
             m = json.load(open(meta))
+            if m.get("obsolete"):
+                continue  # no longer a violation on the repaired tree (see meta.json)
             props = m.get("detected_by") or [m.get("property")]
             out.append({"name": "seeded/" + os.path.basename(d), "patch": patch, "props": props})
     return out
